@@ -290,7 +290,8 @@ def run_case(sname, m, npos, extra, bound_names, bscope, active, res):
 
 def reg_cases(res):
   """Signature-level REQUIRED on a denylisted / not allowlisted parameter is rejected at registration."""
-  for kind in ('denylist', 'allowlist', 'ok_allow', 'ok_deny', 'denylist_kwonly', 'allowlist_class'):
+  for kind in ('denylist', 'allowlist', 'ok_allow', 'ok_deny', 'denylist_kwonly', 'allowlist_class',
+               'second_registration_denylist', 'second_registration_allowlist', 'second_registration_class'):
     harness.hard_reset()
     before = sorted(cfg._REGISTRY._selector_map)
     res.case(('reg', kind), True)
@@ -305,7 +306,14 @@ def reg_cases(res):
         pass
     C.__module__ = 'c10'
     try:
-      if kind == 'denylist':
+      if kind.startswith('second_registration'):
+        # the same object registered before, under another name, without any restriction (that one is fine)
+        target = C if kind.endswith('class') else fn
+        gin.external_configurable(target, name='regprobe_first', module='c10')
+        before = sorted(cfg._REGISTRY._selector_map)
+        lists = {'allowlist': ['a']} if kind.endswith('allowlist') else {'denylist': ['b']}
+        gin.external_configurable(target, name='regprobe_second', module='c10', **lists)
+      elif kind == 'denylist':
         gin.configurable(fn, denylist=['b'])
       elif kind == 'denylist_kwonly':
         gin.configurable(fn, denylist=['k'])
